@@ -17,8 +17,9 @@ pub use crate::process::Termination;
 /// Events seen by the progress reporter, in plain data.
 #[derive(Debug)]
 pub enum ProgressEvent {
-    /// Counts in the order want, ready, queued, running, done, failed.
-    Update([usize; 6]),
+    /// Counts in the order want, ready, queued, running, done, failed, plus
+    /// the total as the display computes it.
+    Update([usize; 6], usize),
     TaskStarted { build: usize },
     TaskOutput { build: usize, line: Vec<u8> },
     TaskFinished { build: usize, termination: Termination, output: Vec<u8> },
@@ -186,7 +187,7 @@ fn counts_array(counts: &StateCounts) -> [usize; 6] {
 impl Progress for ForwardProgress {
     fn update(&self, counts: &StateCounts) {
         if let Some(h) = hooks() {
-            h.progress(ProgressEvent::Update(counts_array(counts)));
+            h.progress(ProgressEvent::Update(counts_array(counts), counts.total()));
         }
     }
     fn task_started(&self, id: BuildId, _build: &Build) {
